@@ -1,8 +1,75 @@
-import Pun.Model.Proto
+import Pun.Model.UN
 namespace Pun.Drv.C15
-open Pun
+open Pun Pun.UN
+
+def parseOp : String → Option Op
+  | "add" => some .add | "sub" => some .sub | "mul" => some .mul | "div" => some .div
+  | "pow" => some .pow | _ => none
+
+def showOp : Op → String
+  | .add => "add" | .sub => "sub" | .mul => "mul" | .div => "div" | .pow => "pow"
+
+def parseEss : String → Option Ess
+  | "I" => some .interval | "D" => some .dist | "P" => some .pbox | "S" => some .dss | _ => none
+
+/-- operand: `U <ess> <nominal> <m> <s> <kg>` | `N <c>` | `C` | `X`; `t` is the name of the construct -/
+def parseOpd (t : Term) : List String → Option (Opd Term × List String)
+  | "U" :: e :: n :: m :: s :: k :: rest => do
+      some (.un ⟨← parseEss e, t, ← parseRat n, ⟨← parseRat m, ← parseRat s, ← parseRat k⟩⟩, rest)
+  | "N" :: c :: rest => do some (.num (← parseRat c), rest)
+  | "C" :: rest => some (.cons, rest)
+  | "X" :: rest => some (.other, rest)
+  | _ => none
+
+def showTerm : Term → String
+  | .A => "A" | .B => "B"
+  | .conv t => "conv(" ++ showTerm t ++ ")"
+  | .cc op x y => "cc(" ++ showOp op ++ "," ++ showTerm x ++ "," ++ showTerm y ++ ")"
+  | .cn op x c => "cn(" ++ showOp op ++ "," ++ showTerm x ++ "," ++ showRat c ++ ")"
+  | .nc op c x => "nc(" ++ showOp op ++ "," ++ showRat c ++ "," ++ showTerm x ++ ")"
+  | .neg x => "neg(" ++ showTerm x ++ ")"
+
+def showRes : Except UErr (Res Term) → String
+  | .ok r => s!"ok {showTerm r.cons} {showRat r.dim.m} {showRat r.dim.s} {showRat r.dim.kg}"
+  | .error e => s!"err {e}"
+
+def showPB : Option PBn → String
+  | some p => s!"ok {showList p.left} {showList p.right}"
+  | none => "err ZeroDivision"
 
 def handle : List String → String
+  | "bin" :: which :: op :: rest =>
+    match parseOp op, parseOpd .A rest with
+    | some o, some (l, rest') =>
+      match parseOpd .B rest' with
+      | some (r, []) =>
+        let r' := r
+        if which == "code" then
+          match pyBin termAlg o l r' with
+          | some x => showRes x
+          | none => "nomodel"
+        else if which == "spec" then showRes (specBin termAlg o l r')
+        else "bad-op"
+      | _ => "bad-op"
+    | _, _ => "bad-op"
+  | "neg" :: rest =>
+    match parseOpd .A rest with
+    | some (.un u, []) => showRes (pyNeg termAlg u)
+    | _ => "bad-op"
+  | ["pbnum", op, l, r, c] =>
+    match parseList l, parseList r, parseRat c with
+    | some l, some r, some c =>
+      let p : PBn := ⟨l, r⟩
+      match op with
+      | "add" => showPB (some (p.addN c))
+      | "sub" => showPB (some (p.subN c))
+      | "rsub" => showPB (some (PBn.rsubN c p))
+      | "mul" => showPB (some (p.mulN c))
+      | "div" => showPB (p.divN c)
+      | "rdiv" => showPB (PBn.rdivN c p)
+      | "neg" => showPB (some p.neg)
+      | _ => "bad-op"
+    | _, _, _ => "bad-op"
   | _ => "bad-op"
 
 end Pun.Drv.C15
